@@ -368,6 +368,22 @@ class CircuitWorld(World):
             psi = apply_dense(psi, U, qs, N)
         return psi
 
+    def _mutated(self, c):
+        """The circuit's state changed (gate accepted, parameters set): keep
+        the sequence of states it has held, for suspended samplers."""
+        c["mut"] += 1
+        c["hist"].append((c["mut"], self.model_state(c)))
+        del c["hist"][:-16]
+
+    @staticmethod
+    def _states_since(c, start_mut):
+        """Every state held since mutation ``start_mut`` (the last one is the
+        current state), or None when that reaches back beyond what is kept."""
+        h = c["hist"]
+        if h[0][0] > start_mut:
+            return None
+        return [p for m, p in h if m >= start_mut]
+
     def _check_record(self, c, where):
         gates = [g for g in c["obj"].gates if g.label != "IDEN"]
         applied = [g for g in c["applied"] if g["label"] != "IDEN"]
@@ -429,7 +445,8 @@ class CircuitWorld(World):
                 g["it"].close()
         self.circs.append({"obj": obj, "cls": cls, "N": N, "applied": [], "gens": [],
                            "contract": op.get("contract"), "compress_every": op.get("compress_every", 2),
-                           "psi0_seed": op.get("psi0_seed")})
+                           "psi0_seed": op.get("psi0_seed"), "mut": 0, "hist": []})
+        self.circs[-1]["hist"].append((0, self.model_state(self.circs[-1])))
         if op.get("psi0_seed") is not None:
             self.stats.probe("custom_initial_state")
         self.note("new", cls)
@@ -480,6 +497,7 @@ class CircuitWorld(World):
             self.note("iden_unrecorded")
             return
         c["applied"].append(g)
+        self._mutated(c)
         self.ngates += 1
         self.stats.probe("gates_accepted")
         self._check_record(c, f"{g['label']}")
@@ -506,6 +524,8 @@ class CircuitWorld(World):
         n1 = len(circ.gates)
         # whatever prefix was accepted is what the record says
         c["applied"].extend(gs[: n1 - n0])
+        if n1 > n0:
+            self._mutated(c)
         if st == "rejected":
             self.stats.fault("gate_rejected")
             c["after_reject"] = True
@@ -559,7 +579,7 @@ class CircuitWorld(World):
         self.circs.append({"obj": new, "cls": c["cls"], "N": c["N"], "applied": list(c["applied"]), "gens": [],
                            "contract": c.get("contract"), "compress_every": c.get("compress_every", 2),
                            "named": dict(c.get("named") or {}), "exprs": dict(c.get("exprs") or {}),
-                           "psi0_seed": c.get("psi0_seed")})
+                           "psi0_seed": c.get("psi0_seed"), "mut": c["mut"], "hist": list(c["hist"])})
         self.stats.fault("fork")
         self.note("copy")
 
@@ -593,6 +613,7 @@ class CircuitWorld(World):
         if st == "rejected":
             raise Skip()
         c["applied"][i] = {**g, "params": list(new)}
+        self._mutated(c)
         self.gate_matrix(c["applied"][i])
         self.stats.fault("params_updated")
         self.note("set_params", i)
@@ -670,6 +691,7 @@ class CircuitWorld(World):
             return
         c["named"], c["exprs"] = named, exprs
         self._model_apply_named(c)
+        self._mutated(c)
         self.stats.fault("named_registered")
         self._check_params_record(c, "register_named_params")
         self.note("register_named", len(exprs))
@@ -698,6 +720,7 @@ class CircuitWorld(World):
         self._model_apply_named(c)
         if extra:
             c["applied"][extra[0]] = {**c["applied"][extra[0]], "params": extra[1]}
+        self._mutated(c)
         self.stats.fault("named_bound")
         self.stats.probe("set_named:" + ("mixed" if extra else "names_only"))
         self._check_params_record(c, "set_params(named)")
@@ -929,7 +952,7 @@ class CircuitWorld(World):
 
             def judge(v):
                 v = 1.0 - float(v) if err else float(v)
-                if not abs(v - 1.0) <= 1e-6:
+                if not abs(v - 1.0) <= (1e-6 if tol <= 1e-6 else 1e-4):
                     fail(f"{'1 - error' if err else 'fidelity'}_estimate() = {v} for an untruncated unitary circuit")
             return (lambda: circ.error_estimate() if err else circ.fidelity_estimate()), judge
         raise Skip()
@@ -1051,15 +1074,15 @@ class CircuitWorld(World):
         N = c["N"]
         # a sample is computed entirely between two scheduling points: it must
         # be supported on the state the circuit holds *now*
-        psi = self.model_state(c)
+        if "start_mut" not in g:
+            g["start_mut"] = c["mut"]
         try:
             st, s = self.call(lambda: next(g["it"], None))
         except Skip:
             c["gens"].remove(g)
             raise
         if st == "rejected":
-            hist = g.get("history", [])
-            changed = bool(hist) and (hist[-1][0] != len(c["applied"]) or maxdiff(hist[-1][1], psi) > 0)
+            changed = c["mut"] != g.get("last_mut", g["start_mut"])
             c["gens"].remove(g)
             if changed:
                 # a suspended sampler continued after the circuit changed: what
@@ -1087,17 +1110,20 @@ class CircuitWorld(World):
         # it first runs, the exact ones read memoised conditionals): a sample
         # is accepted when it is supported on any state the circuit has held
         # since the sampler first ran, and flagged when on none of them.
-        hist = g.setdefault("history", [])
-        if not hist or hist[-1][0] != len(c["applied"]) or maxdiff(hist[-1][1], psi) > 0:
-            hist.append((len(c["applied"]), psi))
-            del hist[:-6]
-        ps = [abs(h[int(s, 2)]) ** 2 for _, h in hist]
-        if max(ps) < 1e-7:
-            raise Violation(f"C07/sample_support:{g['kind']}:{c['cls']}",
-                            f"sampled {s} which has probability {max(ps):.3g} in every state the circuit held "
-                            f"since this sampler started ({len(hist)} states, now {len(c['applied'])} recorded gates)")
-        if ps[-1] < 1e-7:
-            self.stats.probe("sample_from_earlier_state")
+        # (all of them - also those it held while this sampler was suspended
+        # and another one, or a query, filled the shared memo tables)
+        g["last_mut"] = c["mut"]
+        states = self._states_since(c, g["start_mut"])
+        if states is None:
+            self.stats.probe("sampler_history_trimmed")
+        else:
+            ps = [abs(h[int(s, 2)]) ** 2 for h in states]
+            if max(ps) < 1e-7:
+                raise Violation(f"C07/sample_support:{g['kind']}:{c['cls']}",
+                                f"sampled {s} which has probability {max(ps):.3g} in every state the circuit held "
+                                f"since this sampler started ({len(states)} states, now {len(c['applied'])} recorded gates)")
+            if ps[-1] < 1e-7:
+                self.stats.probe("sample_from_earlier_state")
         self.stats.probe("samples_checked")
         self.note("sample", g["kind"])
 
